@@ -160,6 +160,27 @@ impl IrrDb {
         format!("A{}\n{}\nC\n", d.len() + 1, d)
     }
 
+    /// the full response to one query line on a connection whose source selection includes (`alt`) the source the
+    /// server carries but does not use by default
+    pub fn answer_sel(&self, q: &str, alt: bool) -> Option<String> {
+        if alt && !self.errors.contains_key(q) {
+            // ALT has one more route / route6 object for every AS that has any
+            for (pfx, extra, tbl) in [("!g", ALT_ROUTE4, &self.routes4), ("!6", ALT_ROUTE6, &self.routes6)] {
+                if let Some(asn) = q.strip_prefix(pfx) {
+                    let mut r = tbl.get(&asn.to_uppercase()).cloned().unwrap_or_default();
+                    if self.routes4.get(&asn.to_uppercase()).is_some_and(|x| !x.is_empty()) || self.routes6.get(&asn.to_uppercase()).is_some_and(|x| !x.is_empty()) {
+                        r.push(extra.to_string());
+                    }
+                    return Some(if r.is_empty() && !self.empty_as_c { "D\n".into() } else { self.padded(&r) });
+                }
+            }
+        }
+        if q == "!s-lc" {
+            return Some(Self::data(&[if alt { "TEST,ALT".to_string() } else { "TEST".to_string() }]));
+        }
+        self.answer(q)
+    }
+
     /// the full response to one query line
     pub fn answer(&self, q: &str) -> Option<String> {
         if q == "!!" {
@@ -321,6 +342,8 @@ pub fn start_irrd(db: IrrDb, mode: &str) -> FakeIrrd {
                 let _ = stream.set_nodelay(true);
                 let mut w = stream.try_clone().expect("clone");
                 let r = BufReader::new(stream);
+                // the source selection of this connection: the server carries TEST and ALT and uses TEST by default
+                let mut alt = false;
                 for line in r.lines() {
                     let Ok(line) = line else { break };
                     let q = line.trim_end().to_string();
@@ -343,8 +366,13 @@ pub fn start_irrd(db: IrrDb, mode: &str) -> FakeIrrd {
                             "D" => "D\n".to_string(),
                             _ => "F transient failure\n".to_string(),
                         }),
-                        None => db.answer(&q),
+                        None => db.answer_sel(&q, alt),
                     };
+                    if let Some(list) = q.strip_prefix("!s") {
+                        if list != "-lc" {
+                            alt = list == "-*" || list.split(',').any(|x| x.trim().eq_ignore_ascii_case("ALT"));
+                        }
+                    }
                     if let Some(a) = answer {
                         let piece = if db.dribble == 0 { a.len().max(1) } else { db.dribble };
                         let mut broken = false;
@@ -372,6 +400,10 @@ pub fn start_irrd(db: IrrDb, mode: &str) -> FakeIrrd {
 // =============================================================================================
 // denotation of route-filters over the prefix universe of spec/Rpsl.tla:
 // IPv4: every prefix of length 8..=11 under 10.0.0.0/8; IPv6: length 32..=34 under 2001:db8::/32
+
+/// what the source ALT adds to every AS that has routes (inside the prefix universe)
+pub const ALT_ROUTE4: &str = "10.224.0.0/11";
+pub const ALT_ROUTE6: &str = "2001:db8:c000::/34";
 
 pub const U4_ROOT: (u32, u8) = (0x0a00_0000, 8);
 pub const U4_MAXLEN: u8 = 11;
@@ -1046,6 +1078,9 @@ pub struct JunosState {
     pub faults: Vec<Fault>,
     /// the router is unreachable: connections are dropped as soon as they are accepted
     pub refuse: bool,
+    /// the router implements NETCONF 1.1 as well: it advertises :base:1.1 next to :base:1.0 and, with a client that
+    /// advertises :base:1.1 too, both sides use chunked framing after the hello exchange (RFC 6242 section 4.1)
+    pub caps11: bool,
 }
 
 pub struct FakeJunos {
@@ -1093,6 +1128,32 @@ pub fn mutate_reply(msg: &str, how: &str) -> Vec<u8> {
             "trunc" => {
                 if let Some((k, _)) = body[from..].match_indices('>').nth(n) {
                     out.truncate(from + k + 1);
+                }
+            }
+            // num<v>@N: the N-th number of the whole message (attribute values and text alike) made absurd
+            f if f.starts_with("num") => {
+                let big = match &f[3..] {
+                    "63" => "9223372036854775808".to_string(),
+                    "64" => "18446744073709551615".to_string(),
+                    "neg" => "-1".to_string(),
+                    _ => "9".repeat(40),
+                };
+                let b = body.as_bytes();
+                let mut runs: Vec<(usize, usize)> = Vec::new();
+                let mut i = 0;
+                while i < b.len() {
+                    if b[i].is_ascii_digit() {
+                        let a = i;
+                        while i < b.len() && b[i].is_ascii_digit() {
+                            i += 1;
+                        }
+                        runs.push((a, i));
+                    } else {
+                        i += 1;
+                    }
+                }
+                if let Some(&(a, z)) = runs.get(n) {
+                    out = [&b[..a], big.as_bytes(), &b[z..]].concat();
                 }
             }
             "del" => {
@@ -1241,7 +1302,7 @@ pub async fn start_junos(
 ) -> FakeJunos {
     let listener = TcpListener::bind(("127.0.0.1", 0)).await.unwrap();
     let addr = listener.local_addr().unwrap();
-    let state = Arc::new(Mutex::new(JunosState { running, eph, log: Vec::new(), sessions: 0, faults, refuse: false }));
+    let state = Arc::new(Mutex::new(JunosState { running, eph, log: Vec::new(), sessions: 0, faults, refuse: false, caps11: false }));
     let st = state.clone();
     let case2 = case.clone();
     drop(tokio::spawn(async move {
@@ -1284,13 +1345,159 @@ pub async fn start_junos(
     FakeJunos { addr, plain_addr, state }
 }
 
+/// The connection as the session logic sees it: end-of-message framing, always.  Underneath, once both hellos
+/// advertised :base:1.1, the bytes on the wire are chunked (RFC 6242 section 4.2): what the client sends is decoded,
+/// what the router sends is cut into chunks of 1, 7 and the remaining bytes.
+struct Wire<S> {
+    s: S,
+    raw: Vec<u8>,
+    out: Vec<u8>,
+    can11: bool,
+    hello_seen: bool,
+    chunked: bool,
+}
+
+impl<S: tokio::io::AsyncRead + tokio::io::AsyncWrite + Unpin> Wire<S> {
+    fn new(s: S, can11: bool) -> Self {
+        Wire { s, raw: Vec::new(), out: Vec::new(), can11, hello_seen: false, chunked: false }
+    }
+
+    /// one complete chunked message at the head of `raw`, decoded; None if it is not complete yet
+    fn take_chunked(&mut self) -> Option<Vec<u8>> {
+        let b = &self.raw;
+        let mut i = 0usize;
+        let mut data = Vec::new();
+        loop {
+            if b.len() < i + 4 {
+                return None;
+            }
+            if &b[i..i + 2] != b"\n#" {
+                // not chunked framing: hand the bytes over as they are (the session logic will not understand them)
+                let all: Vec<u8> = self.raw.drain(..).collect();
+                return Some(all);
+            }
+            if &b[i..i + 4] == b"\n##\n" {
+                self.raw.drain(..i + 4);
+                data.extend_from_slice(EOM.as_bytes());
+                return Some(data);
+            }
+            let mut j = i + 2;
+            while j < b.len() && b[j].is_ascii_digit() {
+                j += 1;
+            }
+            if j >= b.len() {
+                return None;
+            }
+            if b[j] != b'\n' {
+                let all: Vec<u8> = self.raw.drain(..).collect();
+                return Some(all);
+            }
+            let n: usize = std::str::from_utf8(&b[i + 2..j]).ok().and_then(|x| x.parse().ok()).unwrap_or(0);
+            if b.len() < j + 1 + n {
+                return None;
+            }
+            data.extend_from_slice(&b[j + 1..j + 1 + n]);
+            i = j + 1 + n;
+        }
+    }
+
+    async fn read(&mut self, buf: &mut [u8]) -> std::io::Result<usize> {
+        loop {
+            if self.out.is_empty() {
+                if !self.hello_seen {
+                    if let Some(pos) = self.raw.windows(EOM.len()).position(|w| w == EOM.as_bytes()) {
+                        let hello: Vec<u8> = self.raw.drain(..pos + EOM.len()).collect();
+                        self.hello_seen = true;
+                        self.chunked = self.can11 && String::from_utf8_lossy(&hello).contains("urn:ietf:params:netconf:base:1.1");
+                        self.out = hello;
+                    }
+                } else if !self.chunked {
+                    self.out = self.raw.drain(..).collect();
+                } else if let Some(m) = self.take_chunked() {
+                    self.out = m;
+                }
+            }
+            if !self.out.is_empty() {
+                let n = self.out.len().min(buf.len());
+                buf[..n].copy_from_slice(&self.out[..n]);
+                self.out.drain(..n);
+                return Ok(n);
+            }
+            let mut b = [0u8; 16384];
+            let n = self.s.read(&mut b).await?;
+            if n == 0 {
+                return Ok(0);
+            }
+            self.raw.extend_from_slice(&b[..n]);
+        }
+    }
+
+    async fn write_all(&mut self, data: &[u8]) -> std::io::Result<()> {
+        if !self.chunked {
+            return self.s.write_all(data).await;
+        }
+        let mut rest = data;
+        while !rest.is_empty() {
+            let (msg, complete) = match rest.windows(EOM.len()).position(|w| w == EOM.as_bytes()) {
+                Some(pos) => {
+                    let m = &rest[..pos];
+                    rest = &rest[pos + EOM.len()..];
+                    (m, true)
+                }
+                None => {
+                    let m = rest;
+                    rest = &[];
+                    (m, false)
+                }
+            };
+            // white space may follow the delimiter of the previous message (Junos writes a line feed there)
+            let msg = if msg.iter().all(|c| c.is_ascii_whitespace()) { &msg[..0] } else { msg };
+            // chunk data is opaque: a line of "##" inside it is not the end of the message
+            let with_comment: Vec<u8>;
+            let msg = match (msg.starts_with(b"<rpc-reply") && std::env::var_os("VERIF_NO_HASH_LINE").is_none(), msg.iter().position(|c| *c == b'>')) {
+                (true, Some(gt)) => {
+                    with_comment = [&msg[..gt + 1], b"<!-- the end of a chunked message looks like this:\n##\n-->".as_slice(), &msg[gt + 1..]].concat();
+                    &with_comment[..]
+                }
+                _ => msg,
+            };
+            let mut wire = Vec::with_capacity(msg.len() + 64);
+            let mut at = 0usize;
+            for size in [1usize, 7, usize::MAX] {
+                if at >= msg.len() {
+                    break;
+                }
+                let n = size.min(msg.len() - at);
+                wire.extend_from_slice(format!("\n#{n}\n").as_bytes());
+                wire.extend_from_slice(&msg[at..at + n]);
+                at += n;
+            }
+            if complete && !msg.is_empty() {
+                wire.extend_from_slice(b"\n##\n");
+            }
+            self.s.write_all(&wire).await?;
+        }
+        Ok(())
+    }
+
+    async fn flush(&mut self) -> std::io::Result<()> {
+        self.s.flush().await
+    }
+
+    async fn shutdown(&mut self) -> std::io::Result<()> {
+        self.s.shutdown().await
+    }
+}
+
 async fn serve_session<S: tokio::io::AsyncRead + tokio::io::AsyncWrite + Unpin>(
-    mut stream: S,
+    stream: S,
     st: Arc<Mutex<JunosState>>,
     faults: Vec<Fault>,
     case: String,
     style: Option<crate::xmlgen::Style>,
 ) {
+    let caps11 = st.lock().unwrap().caps11;
+    let mut stream = Wire::new(stream, caps11);
     let sess = {
         let mut g = st.lock().unwrap();
         g.sessions += 1;
@@ -1306,6 +1513,7 @@ async fn serve_session<S: tokio::io::AsyncRead + tokio::io::AsyncWrite + Unpin>(
     let hello = server_hello(
         &[
             "urn:ietf:params:netconf:base:1.0",
+            if caps11 { "urn:ietf:params:netconf:base:1.1" } else { "urn:ietf:params:netconf:capability:startup:1.0" },
             "urn:ietf:params:netconf:capability:candidate:1.0",
             "urn:ietf:params:netconf:capability:confirmed-commit:1.0",
             "urn:ietf:params:netconf:capability:validate:1.0",
@@ -1365,7 +1573,16 @@ async fn serve_session<S: tokio::io::AsyncRead + tokio::io::AsyncWrite + Unpin>(
         let off = text.len() - trimmed.len();
         i += off;
         let Some(req) = parse_elem(body, &mut i) else {
-            log(&st, json!({"ev": "req", "kind": "unparseable", "wellformed": false, "raw": text.chars().take(300).collect::<String>()}));
+            // what the agent sent is not well-formed XML: the router says so (it can usually still read the message-id)
+            let id = text.split("message-id=\"").nth(1).and_then(|r| r.split('"').next()).unwrap_or("").to_string();
+            log(&st, json!({"ev": "req", "kind": "unparseable", "wellformed": false, "fault": "none", "mutated": false, "id": id,
+                            "raw": text.chars().take(300).collect::<String>()}));
+            if !id.is_empty() && id.chars().all(|c| c.is_ascii_digit()) {
+                let r = format!("<rpc-reply message-id=\"{id}\" xmlns=\"{BASE_NS}\"><rpc-error><error-type>rpc</error-type><error-tag>malformed-message</error-tag><error-severity>error</error-severity><error-message>syntax error in the request</error-message></rpc-error></rpc-reply>{EOM}");
+                if stream.write_all(r.as_bytes()).await.is_err() {
+                    break;
+                }
+            }
             continue;
         };
         let id = req.attr("message-id").unwrap_or("0").to_string();
